@@ -1,4 +1,345 @@
+/-
+  C03 - Loading a well-formed document defines exactly its objects.
+
+  Theorems about the faithful model `Parsley.Loader` (Model/Loader.lean) of
+  src/pdf_lib/pdf_traverse_xref.rs.
+
+    identity_mismatch_rejected       for ALL inputs: if the object found at a cross-reference offset carries
+                                     another identifier than its entry, loading is rejected (first pass, second
+                                     pass, and lifted to parse_objects).
+    load_defines_exactly_partial     the object-loading stage for DIRECT objects, for all entry lists and all
+                                     object texts: if every in-use entry's offset holds an indirect object that
+                                     reads (in any context not yet defining it) as (id, gen) -> value, then
+                                     parse_objects defines EXACTLY those identifiers, each bound to its value,
+                                     and nothing else.  (Stage "classic table / cross-reference stream with
+                                     type-1 entries + direct objects"; which entries are collected is C04's
+                                     merge theorem and C13's decoding theorems.)
+    load_never_panics_partial        for ALL inputs below 2^62 bytes no panic site is reachable - neither in the
+                                     loader's glue nor in any parser it composes (object, indirect object, xref
+                                     table, xref stream, object stream; the /Prev loop never runs out of fuel) -
+                                     PROVIDED the stream decoders do not panic and return buffers of at most
+                                     2^63 bytes (`DecodersTotal`: zlib inflate model, ASCII85, ASCIIHex, predictor
+                                     glue - C06/C07 material, not discharged here).  Proof: Lemmas/LoaderNoPanic.lean.
+    hybrid_hidden_gen0_witness       known finding #31 on the faithful model.
+  `_partial`: not closed by a theorem, decided by the correspondence run with the oracle `DocSpec.resolve`:
+  the composition with the header / startxref / trailer scans and with the decoders of C13 (table, stream,
+  /W, /Index, Flate + Up), the premise `ReadsAt` for every spelling (C02's spell_parse is itself partial),
+  object streams, hybrid files, forward-referenced /Length (second pass).  The kernel-evaluated examples at
+  the end run the WHOLE model on one concrete file per layout - they are tests, labelled as such.
+-/
+import Parsley.Props.C05
 import Parsley.Model.Loader
-import Parsley.Spec.Doc
+import Parsley.Lemmas.LoaderNoPanic
 namespace Parsley.C03
+open Parsley Parsley.Obj Parsley.Indirect Parsley.Loader
+
+/-! ## identity mismatch -/
+
+/-- **identity_mismatch_rejected** (first pass): the entry says `(id, gen)` at `ofs`, the object
+    parsed there says something else - whatever else the file contains, the load is rejected. -/
+theorem identity_mismatch_rejected (id gen ofs : Nat) (t : List ObjInfo) (c : Ctx) (s : Bytes)
+    (os : List ObjId) (sp : List (Nat × Nat × Nat)) (io : Located Indirect) (e : Nat) (c1 : Ctx)
+    (hundef : defsGet (id, gen) c.defs = none) (hofs : ofs < s.length)
+    (hparse : parseIndirect c s ofs = ((.ok io, e), c1))
+    (hne : (io.val.num, io.val.gen) ≠ (id, gen)) :
+    firstPass (.inFile id gen ofs :: t) c s os sp = (.reject, c1) := by
+  unfold firstPass
+  simp [hundef, hofs, hparse, hne]
+
+/-- the same in the second pass -/
+theorem identity_mismatch_rejected_second (id gen ofs : Nat) (t : List (Nat × Nat × Nat)) (c : Ctx) (s : Bytes)
+    (io : Located Indirect) (e : Nat) (c1 : Ctx)
+    (hundef : defsGet (id, gen) c.defs = none) (hofs : ofs < s.length)
+    (hparse : parseIndirect c s ofs = ((.ok io, e), c1))
+    (hne : (io.val.num, io.val.gen) ≠ (id, gen)) :
+    secondPass ((id, gen, ofs) :: t) c s = (.reject, c1) := by
+  unfold secondPass
+  simp [hundef, hofs, hparse, hne]
+
+/-- a rejection in the first pass rejects `parse_objects` (hence the load) -/
+theorem firstPass_reject_lifts (hofs : Nat) (st : St) (infos : List ObjInfo) (s : Bytes) (c1 : Ctx)
+    (h : firstPass infos st.ctx s [] [] = (.reject, c1)) :
+    (match parseObjects hofs st infos s with | .reject => true | _ => false) = true := by
+  unfold parseObjects
+  rw [h]
+
+/-! ## the object-loading stage for direct objects -/
+
+/-- one in-use entry together with the value its object denotes -/
+structure Item where
+  id : Nat
+  gen : Nat
+  ofs : Nat
+  v : Located Obj
+
+def Item.key (it : Item) : ObjId := (it.id, it.gen)
+def Item.info (it : Item) : ObjInfo := .inFile it.id it.gen it.ofs
+
+/-- "the bytes at `ofs` are the indirect object `(id, gen)` with value `v`": in every context that does
+    not define it yet, `parse_pdf_indirect_obj` at `ofs` returns it and registers it.  (For objects
+    that do not look anything up in the context - every object except a stream whose /Length is a
+    reference - this is a property of the bytes alone; see `tiny_reads` for a proved instance.) -/
+def ReadsAt (cur max : Nat) (eol : Bool) (s : Bytes) (it : Item) : Prop :=
+  ∀ defs : Defs, DefsSorted defs → defsGet it.key defs = none →
+    ∃ a e, parseIndirect ⟨defs, cur, max, eol⟩ s it.ofs =
+      ((.ok ⟨⟨it.id, it.gen, it.v⟩, a, e⟩, e), ⟨(defsInsert it.key it.v defs).2, cur, max, eol⟩)
+
+/-- the definitions after registering the items in order -/
+def insertAll : List Item → Defs → Defs
+  | [], d => d
+  | it :: t, d => insertAll t (defsInsert it.key it.v d).2
+
+theorem defsGet_insertAll_other (k : ObjId) : ∀ (items : List Item) (d : Defs),
+    (∀ it ∈ items, it.key ≠ k) → defsGet k (insertAll items d) = defsGet k d
+  | [], _, _ => rfl
+  | it :: t, d, h => by
+    simp only [insertAll]
+    rw [defsGet_insertAll_other k t _ (fun x hx => h x (List.mem_cons_of_mem _ hx))]
+    exact defsGet_insert_other it.key k it.v d (fun hk => h it List.mem_cons_self hk.symm)
+
+theorem defsGet_insertAll_mem : ∀ (items : List Item) (d : Defs) (it : Item),
+    (items.map Item.key).Nodup → it ∈ items → defsGet it.key (insertAll items d) = some it.v
+  | [], _, _, _, h => by cases h
+  | x :: t, d, it, hnd, h => by
+    simp only [List.map_cons, List.nodup_cons] at hnd
+    simp only [insertAll]
+    rcases List.mem_cons.mp h with rfl | hin
+    · rw [defsGet_insertAll_other it.key t _ (fun y hy hk => hnd.1 (by rw [← hk]; exact List.mem_map_of_mem hy))]
+      exact defsGet_insert_same it.key it.v d
+    · exact defsGet_insertAll_mem t _ it hnd.2 hin
+
+theorem insertAll_sorted : ∀ (items : List Item) (d : Defs), DefsSorted d → DefsSorted (insertAll items d)
+  | [], _, h => h
+  | it :: t, d, h => insertAll_sorted t _ (defsInsert_sorted it.key it.v d h)
+
+/-- the first pass over in-use entries whose objects read as stated registers exactly them -/
+theorem firstPass_direct (cur max : Nat) (eol : Bool) (s : Bytes) :
+    ∀ (items : List Item) (defs : Defs) (os : List ObjId) (sp : List (Nat × Nat × Nat)),
+      DefsSorted defs → (items.map Item.key).Nodup →
+      (∀ it ∈ items, it.ofs < s.length ∧ ReadsAt cur max eol s it) →
+      (∀ it ∈ items, defsGet it.key defs = none) →
+      firstPass (items.map Item.info) ⟨defs, cur, max, eol⟩ s os sp =
+        (.ok (os, sp.reverse), ⟨insertAll items defs, cur, max, eol⟩)
+  | [], _, _, _, _, _, _, _ => by simp [firstPass, insertAll]
+  | it :: t, defs, os, sp, hs, hnd, hread, hnone => by
+    simp only [List.map_cons, List.nodup_cons] at hnd
+    obtain ⟨hlt, hr⟩ := hread it List.mem_cons_self
+    have hn := hnone it List.mem_cons_self
+    obtain ⟨a, e, hp⟩ := hr defs hs hn
+    have hn' : defsGet (it.id, it.gen) defs = none := hn
+    simp only [List.map_cons, Item.info, firstPass, hn', Option.isSome_none, Bool.false_eq_true, if_false, hlt,
+      decide_true, Bool.not_true, hp, bne_self_eq_false]
+    simp only [insertAll]
+    apply firstPass_direct cur max eol s t _ os sp (defsInsert_sorted it.key it.v defs hs) hnd.2
+      (fun x hx => hread x (List.mem_cons_of_mem _ hx))
+    intro x hx
+    rw [defsGet_insert_other it.key x.key it.v defs
+      (fun hk => hnd.1 (by rw [← hk]; exact List.mem_map_of_mem hx))]
+    exact hnone x (List.mem_cons_of_mem _ hx)
+
+theorem valDefs_get (k : ObjId) : ∀ d : Defs, ObjStm.defsGet k (valDefs d) = (defsGet k d).map (·.val)
+  | [] => rfl
+  | (k', v) :: t => by
+    simp only [valDefs, ObjStm.defsGet, defsGet]
+    split
+    · rfl
+    · exact valDefs_get k t
+
+/-- **load_defines_exactly_partial** (stage: direct objects).  For every list of in-use entries with
+    pairwise distinct identifiers whose offsets lie in the file and hold objects that read as the
+    entries say, `parse_objects` - started with an empty context, as `parse_data` does when the
+    cross-reference data is a classic table - ends without rejection, defines every entry's
+    identifier with the value that was written, and defines NOTHING else. -/
+theorem load_defines_exactly_partial (hofs : Nat) (enc : Bool) (s : Bytes) (items : List Item)
+    (hnd : (items.map Item.key).Nodup)
+    (hread : ∀ it ∈ items, it.ofs < s.length ∧ ReadsAt 0 50 false s it) :
+    ∃ defs, parseObjects hofs ⟨Ctx.new 50, enc⟩ (items.map Item.info) s = .ok defs ∧
+      (∀ it ∈ items, ObjStm.defsGet it.key defs = some it.v.val) ∧
+      (∀ k, (∀ it ∈ items, it.key ≠ k) → ObjStm.defsGet k defs = none) := by
+  have hfp := firstPass_direct 0 50 false s items [] [] [] List.Pairwise.nil hnd hread (fun _ _ => rfl)
+  refine ⟨valDefs (insertAll items []), ?_, ?_, ?_⟩
+  · unfold parseObjects
+    show (match firstPass (items.map Item.info) ⟨[], 0, 50, false⟩ s [] [] with
+      | (.panic p, _) => _ | (.reject, _) => _ | (.ok (os, sp), c1) => _) = _
+    rw [hfp]
+    simp [secondPass, definedStreams, objStmPass]
+  · intro it hit
+    rw [valDefs_get, defsGet_insertAll_mem items [] it hnd hit]
+    rfl
+  · intro k hk
+    rw [valDefs_get, defsGet_insertAll_other k items [] hk]
+    rfl
+
+/-! ### non-vacuity: a proved instance of `ReadsAt`, and the theorem applied to it -/
+
+/-- `1 0 obj 7 endobj` -/
+def tinyObj : Bytes := [49, 32, 48, 32, 111, 98, 106, 32, 55, 32, 101, 110, 100, 111, 98, 106]
+
+set_option maxRecDepth 10000 in
+theorem tiny_head (defs : Defs) :
+    indirectHead ⟨defs, 0, 50, false⟩ tinyObj 0 = ((.ok ⟨1, 0, ⟨.int 7, 8, 9⟩⟩, 9), ⟨defs, 0, 50, false⟩) := by
+  rfl
+
+set_option maxRecDepth 10000 in
+/-- the hypothesis of `load_defines_exactly_partial` is satisfiable: these 16 bytes read as `(1,0) -> 7`
+    in every context that does not define (1,0) -/
+theorem tiny_reads : ReadsAt 0 50 false tinyObj ⟨1, 0, 0, ⟨.int 7, 8, 9⟩⟩ := by
+  intro defs hs hn
+  have hold : (defsInsert (1, 0) ⟨.int 7, 8, 9⟩ defs).1 = none := by
+    have hn' : defsGet (1, 0) defs = none := hn
+    rw [defsInsert_old (1, 0) ⟨.int 7, 8, 9⟩ defs hs, hn']
+  refine ⟨0, 16, ?_⟩
+  have hw : Prim.wsEOL true tinyObj 0 = (.ok ⟨(), 0, 0⟩, 0) := by rfl
+  have hb : indirectBody ⟨defs, 0, 50, false⟩ tinyObj ⟨.int 7, 8, 9⟩ 9 = (.ok ⟨.int 7, 8, 9⟩, 9) := by rfl
+  have hw2 : Prim.wsEOL true tinyObj 9 = (.ok ⟨(), 9, 10⟩, 10) := by rfl
+  have he : Prim.exact kwEndobj tinyObj 10 = (true, 16) := by rfl
+  unfold parseIndirect
+  rw [hw]
+  simp only []
+  unfold indirectInternal
+  rw [tiny_head]
+  simp only [hb]
+  unfold indirectFinish
+  rw [hw2]
+  simp only [he]
+  rcases hd : defsInsert (1, 0) ⟨.int 7, 8, 9⟩ defs with ⟨old, d⟩
+  rw [hd] at hold
+  simp only at hold
+  subst hold
+  simp [Item.key, hd]
+
+example : ∃ defs, parseObjects 0 ⟨Ctx.new 50, false⟩ [.inFile 1 0 0] tinyObj = .ok defs ∧
+    ObjStm.defsGet (1, 0) defs = some (.int 7) ∧ ObjStm.defsGet (2, 0) defs = none := by
+  obtain ⟨defs, h1, h2, h3⟩ := load_defines_exactly_partial 0 false tinyObj [⟨1, 0, 0, ⟨.int 7, 8, 9⟩⟩]
+    (by simp) (by intro it hit; simp at hit; subst hit; exact ⟨by decide, tiny_reads⟩)
+  exact ⟨defs, h1, h2 _ List.mem_cons_self, h3 (2, 0) (by intro it hit; simp at hit; subst hit; simp [Item.key])⟩
+
+/-! ## no panic -/
+
+/-- **load_never_panics_partial.**  `partial` = conditional on the decoders (`DecodersTotal`); everything else
+    (every `unwrap`/index/assert/overflow site modelled in the loader and in the parsers it calls, and the
+    fuel of the /Prev loop) is proved unreachable for every input. -/
+theorem load_never_panics_partial (data : Bytes) (hlen : data.length < 2 ^ 62)
+    (hdec : LoaderNoPanic.DecodersTotal) : (parseData data).isPanic = false :=
+  LoaderNoPanic.load_never_panics_partial data hlen hdec
+
+/-! ## whole-model runs on one concrete file per layout (TESTS evaluated by the kernel, not theorems
+    about all files), and the witness of known finding #31 -/
+
+def lookupDef (o : Out Loaded) (id : Nat × Nat) : Option Obj :=
+  match o with
+  | .ok l => ObjStm.defsGet id l.defs
+  | _ => none
+
+def isIntVal (o : Option Obj) (n : Int) : Bool :=
+  match o with
+  | some (.int m) => m == n
+  | _ => false
+
+def isStreamOf (o : Option Obj) (data : Bytes) : Bool :=
+  match o with
+  | some (.stream _ sc) => sc.content == data
+  | _ => false
+
+def isRejected : Out Loaded → Bool
+  | .reject => true
+  | _ => false
+
+def nDefs : Out Loaded → Nat
+  | .ok l => l.defs.length
+  | _ => 0
+
+def rootIs (o : Out Loaded) (id : Nat × Nat) : Bool :=
+  match o with
+  | .ok l => l.root == id
+  | _ => false
+
+/-- classic table, one direct object -/
+def docClassic : Bytes := [
+  37, 80, 68, 70, 45, 49, 46, 48, 10, 49, 32, 48, 32, 111, 98, 106, 32, 55, 32, 101, 110, 100, 111, 98, 106, 10, 120, 114, 101, 102, 10, 48, 32, 50, 10, 48, 48, 48, 48, 48,
+  48, 48, 48, 48, 48, 32, 54, 53, 53, 51, 53, 32, 102, 32, 10, 48, 48, 48, 48, 48, 48, 48, 48, 48, 57, 32, 48, 48, 48, 48, 48, 32, 110, 32, 10, 116, 114, 97, 105, 108,
+  101, 114, 60, 60, 47, 82, 111, 111, 116, 32, 49, 32, 48, 32, 82, 62, 62, 10, 115, 116, 97, 114, 116, 120, 114, 101, 102, 10, 50, 54, 10, 37, 37, 69, 79, 70, 10]
+
+/-- stream 1 with /Length 2 0 R, holder 2 written after it -/
+def docForwardLength : Bytes := [
+  37, 80, 68, 70, 45, 49, 46, 52, 10, 49, 32, 48, 32, 111, 98, 106, 32, 60, 60, 47, 76, 101, 110, 103, 116, 104, 32, 50, 32, 48, 32, 82, 62, 62, 115, 116, 114, 101, 97, 109,
+  10, 97, 98, 99, 10, 101, 110, 100, 115, 116, 114, 101, 97, 109, 32, 101, 110, 100, 111, 98, 106, 10, 50, 32, 48, 32, 111, 98, 106, 32, 51, 32, 101, 110, 100, 111, 98, 106, 10, 120,
+  114, 101, 102, 10, 48, 32, 51, 10, 48, 48, 48, 48, 48, 48, 48, 48, 48, 48, 32, 54, 53, 53, 51, 53, 32, 102, 32, 10, 48, 48, 48, 48, 48, 48, 48, 48, 48, 57, 32, 48,
+  48, 48, 48, 48, 32, 110, 32, 10, 48, 48, 48, 48, 48, 48, 48, 48, 54, 50, 32, 48, 48, 48, 48, 48, 32, 110, 32, 10, 116, 114, 97, 105, 108, 101, 114, 60, 60, 47, 83, 105,
+  122, 101, 32, 51, 47, 82, 111, 111, 116, 32, 49, 32, 48, 32, 82, 62, 62, 10, 115, 116, 97, 114, 116, 120, 114, 101, 102, 10, 55, 57, 10, 37, 37, 69, 79, 70, 10]
+
+/-- cross-reference stream with /W [1 1 1] -/
+def docXrefStream : Bytes := [
+  37, 80, 68, 70, 45, 49, 46, 52, 10, 49, 32, 48, 32, 111, 98, 106, 32, 55, 32, 101, 110, 100, 111, 98, 106, 10, 50, 32, 48, 32, 111, 98, 106, 60, 60, 47, 84, 121, 112, 101,
+  47, 88, 82, 101, 102, 47, 83, 105, 122, 101, 32, 51, 47, 87, 91, 49, 32, 49, 32, 49, 93, 47, 82, 111, 111, 116, 32, 49, 32, 48, 32, 82, 47, 76, 101, 110, 103, 116, 104, 32,
+  57, 62, 62, 115, 116, 114, 101, 97, 109, 10, 0, 0, 255, 1, 9, 0, 1, 26, 0, 10, 101, 110, 100, 115, 116, 114, 101, 97, 109, 32, 101, 110, 100, 111, 98, 106, 10, 115, 116, 97,
+  114, 116, 120, 114, 101, 102, 10, 50, 54, 10, 37, 37, 69, 79, 70, 10]
+
+/-- two objects whose table offsets are exchanged -/
+def docMismatch : Bytes := [
+  37, 80, 68, 70, 45, 49, 46, 52, 10, 49, 32, 48, 32, 111, 98, 106, 32, 55, 32, 101, 110, 100, 111, 98, 106, 10, 50, 32, 48, 32, 111, 98, 106, 32, 56, 32, 101, 110, 100, 111,
+  98, 106, 10, 120, 114, 101, 102, 10, 48, 32, 51, 10, 48, 48, 48, 48, 48, 48, 48, 48, 48, 48, 32, 54, 53, 53, 51, 53, 32, 102, 32, 10, 48, 48, 48, 48, 48, 48, 48, 48,
+  50, 54, 32, 48, 48, 48, 48, 48, 32, 110, 32, 10, 48, 48, 48, 48, 48, 48, 48, 48, 48, 57, 32, 48, 48, 48, 48, 48, 32, 110, 32, 10, 116, 114, 97, 105, 108, 101, 114, 60,
+  60, 47, 83, 105, 122, 101, 32, 51, 47, 82, 111, 111, 116, 32, 49, 32, 48, 32, 82, 62, 62, 10, 115, 116, 97, 114, 116, 120, 114, 101, 102, 10, 52, 51, 10, 37, 37, 69, 79, 70,
+  10]
+
+/-- hybrid file: object 2 hidden in object stream 3, its free entry in the table has generation 0 -/
+def hybridGen0 : Bytes := [
+  37, 80, 68, 70, 45, 49, 46, 53, 10, 49, 32, 48, 32, 111, 98, 106, 32, 55, 32, 101, 110, 100, 111, 98, 106, 10, 51, 32, 48, 32, 111, 98, 106, 60, 60, 47, 84, 121, 112, 101,
+  47, 79, 98, 106, 83, 116, 109, 47, 78, 32, 49, 47, 70, 105, 114, 115, 116, 32, 52, 47, 76, 101, 110, 103, 116, 104, 32, 54, 62, 62, 115, 116, 114, 101, 97, 109, 10, 50, 32, 48,
+  32, 50, 50, 10, 101, 110, 100, 115, 116, 114, 101, 97, 109, 32, 101, 110, 100, 111, 98, 106, 10, 52, 32, 48, 32, 111, 98, 106, 60, 60, 47, 84, 121, 112, 101, 47, 88, 82, 101, 102,
+  47, 83, 105, 122, 101, 32, 53, 47, 87, 91, 49, 32, 49, 32, 49, 93, 47, 73, 110, 100, 101, 120, 91, 50, 32, 49, 93, 47, 76, 101, 110, 103, 116, 104, 32, 51, 62, 62, 115, 116,
+  114, 101, 97, 109, 10, 2, 3, 0, 10, 101, 110, 100, 115, 116, 114, 101, 97, 109, 32, 101, 110, 100, 111, 98, 106, 10, 120, 114, 101, 102, 10, 48, 32, 53, 10, 48, 48, 48, 48, 48,
+  48, 48, 48, 48, 48, 32, 54, 53, 53, 51, 53, 32, 102, 32, 10, 48, 48, 48, 48, 48, 48, 48, 48, 48, 57, 32, 48, 48, 48, 48, 48, 32, 110, 32, 10, 48, 48, 48, 48, 48,
+  48, 48, 48, 48, 48, 32, 48, 48, 48, 48, 48, 32, 102, 32, 10, 48, 48, 48, 48, 48, 48, 48, 48, 50, 54, 32, 48, 48, 48, 48, 48, 32, 110, 32, 10, 48, 48, 48, 48, 48,
+  48, 48, 49, 48, 49, 32, 48, 48, 48, 48, 48, 32, 110, 32, 10, 116, 114, 97, 105, 108, 101, 114, 60, 60, 47, 83, 105, 122, 101, 32, 53, 47, 82, 111, 111, 116, 32, 49, 32, 48,
+  32, 82, 47, 88, 82, 101, 102, 83, 116, 109, 32, 49, 48, 49, 62, 62, 10, 115, 116, 97, 114, 116, 120, 114, 101, 102, 10, 49, 56, 54, 10, 37, 37, 69, 79, 70, 10]
+
+/-- the same with generation 65535 in the free entry -/
+def hybridGen65535 : Bytes := [
+  37, 80, 68, 70, 45, 49, 46, 53, 10, 49, 32, 48, 32, 111, 98, 106, 32, 55, 32, 101, 110, 100, 111, 98, 106, 10, 51, 32, 48, 32, 111, 98, 106, 60, 60, 47, 84, 121, 112, 101,
+  47, 79, 98, 106, 83, 116, 109, 47, 78, 32, 49, 47, 70, 105, 114, 115, 116, 32, 52, 47, 76, 101, 110, 103, 116, 104, 32, 54, 62, 62, 115, 116, 114, 101, 97, 109, 10, 50, 32, 48,
+  32, 50, 50, 10, 101, 110, 100, 115, 116, 114, 101, 97, 109, 32, 101, 110, 100, 111, 98, 106, 10, 52, 32, 48, 32, 111, 98, 106, 60, 60, 47, 84, 121, 112, 101, 47, 88, 82, 101, 102,
+  47, 83, 105, 122, 101, 32, 53, 47, 87, 91, 49, 32, 49, 32, 49, 93, 47, 73, 110, 100, 101, 120, 91, 50, 32, 49, 93, 47, 76, 101, 110, 103, 116, 104, 32, 51, 62, 62, 115, 116,
+  114, 101, 97, 109, 10, 2, 3, 0, 10, 101, 110, 100, 115, 116, 114, 101, 97, 109, 32, 101, 110, 100, 111, 98, 106, 10, 120, 114, 101, 102, 10, 48, 32, 53, 10, 48, 48, 48, 48, 48,
+  48, 48, 48, 48, 48, 32, 54, 53, 53, 51, 53, 32, 102, 32, 10, 48, 48, 48, 48, 48, 48, 48, 48, 48, 57, 32, 48, 48, 48, 48, 48, 32, 110, 32, 10, 48, 48, 48, 48, 48,
+  48, 48, 48, 48, 48, 32, 54, 53, 53, 51, 53, 32, 102, 32, 10, 48, 48, 48, 48, 48, 48, 48, 48, 50, 54, 32, 48, 48, 48, 48, 48, 32, 110, 32, 10, 48, 48, 48, 48, 48,
+  48, 48, 49, 48, 49, 32, 48, 48, 48, 48, 48, 32, 110, 32, 10, 116, 114, 97, 105, 108, 101, 114, 60, 60, 47, 83, 105, 122, 101, 32, 53, 47, 82, 111, 111, 116, 32, 49, 32, 48,
+  32, 82, 47, 88, 82, 101, 102, 83, 116, 109, 32, 49, 48, 49, 62, 62, 10, 115, 116, 97, 114, 116, 120, 114, 101, 102, 10, 49, 56, 54, 10, 37, 37, 69, 79, 70, 10]
+
+/-- test: classic table + direct object -/
+example : isIntVal (lookupDef (parseData docClassic) (1, 0)) 7 = true ∧ nDefs (parseData docClassic) = 1 ∧
+    rootIs (parseData docClassic) (1, 0) = true := by decide +kernel
+
+/-- test: leading garbage before the header changes nothing -/
+example : isIntVal (lookupDef (parseData ([106, 117, 110, 107, 10] ++ docClassic)) (1, 0)) 7 = true ∧
+    nDefs (parseData ([106, 117, 110, 107, 10] ++ docClassic)) = 1 := by decide +kernel
+
+/-- test: forward-referenced /Length (second pass) -/
+example : isStreamOf (lookupDef (parseData docForwardLength) (1, 0)) [97, 98, 99] = true ∧
+    isIntVal (lookupDef (parseData docForwardLength) (2, 0)) 3 = true ∧ nDefs (parseData docForwardLength) = 2 := by
+  decide +kernel
+
+/-- test: cross-reference stream (the stream object itself is an object of the document) -/
+example : isIntVal (lookupDef (parseData docXrefStream) (1, 0)) 7 = true ∧ nDefs (parseData docXrefStream) = 2 := by
+  decide +kernel
+
+/-- test: no panic outcome on a corrupted file (truncated in the middle of the table) -/
+example : (parseData (docClassic.take 60 ++ docClassic.drop 100)).isPanic = false := by decide +kernel
+
+/-- test: identity mismatch on a whole file -/
+example : isRejected (parseData docMismatch) = true := by decide +kernel
+
+/-- test: hybrid file whose hidden object's free entry carries generation 65535: the object loads -/
+example : isIntVal (lookupDef (parseData hybridGen65535) (2, 0)) 22 = true ∧ nDefs (parseData hybridGen65535) = 4 := by
+  decide +kernel
+
+/-- **Known finding C03-hybrid-hidden-gen0 (#31).**  With generation 0 in the table's free entry the
+    hidden object 2 is lost (its in-stream entry (2,0) is shadowed by the free entry (2,0)), although
+    the file is accepted and everything else loads. -/
+theorem hybrid_hidden_gen0_witness :
+    (lookupDef (parseData hybridGen0) (2, 0)).isNone = true ∧ nDefs (parseData hybridGen0) = 3 ∧
+    isIntVal (lookupDef (parseData hybridGen0) (1, 0)) 7 = true := by
+  decide +kernel
+
 end Parsley.C03
